@@ -139,27 +139,60 @@ def run(rep, tier):
 
     # ---------------------------------------------------------------- R17.5
     n_w = 0
+
+    def creation_sites(g):
+        """[(kind, try node, [handler call name lists])] for every try block of g that creates a dataset / group"""
+        out = []
+        for t in [n for n in g.walk() if n.get("k") == "try"]:
+            created = [x for x in walk(t["block"]) if x.get("k") == "mcall" and (x.get("callee") or "").endswith(("::createDataSet", "::createGroup"))]
+            if created:
+                kind = "dataset" if created[0]["callee"].endswith("createDataSet") else "group"
+                # what runs when the creation throws: the handler, then (unless it leaves) the statements after the try block
+                par = g.nodes.get(g.parent.get(t["id"]))
+                after = []
+                if par is not None and par.get("k") == "compound":
+                    ix = [i_ for i_, st in enumerate(par["stmts"]) if st.get("id") == t["id"]]
+                    after = par["stmts"][ix[0] + 1:] if ix else []
+                seqs = []
+                for h in t["handlers"]:
+                    hc = [(x.get("callee") or "").split("::")[-1] for x in walk(h["body"]) if x.get("k") == "mcall"]
+                    leaves = any(x.get("k") in ("return", "throw") for x in walk(h["body"]))
+                    if not leaves:
+                        hc += [(x.get("callee") or "").split("::")[-1] for st in after for x in walk(st) if x.get("k") == "mcall"]
+                    seqs.append([c_ for c_ in hc if c_ in ("unlink", "createDataSet", "openDataSet", "createGroup", "openGroup")])
+                out.append((kind, t, seqs, t["handlers"]))
+        return out
+
+    def helpers_of(f):
+        """functions with a body that f calls directly (methods of the writer or file-local helpers)"""
+        out = []
+        for n in f.walk():
+            if n.get("k") in ("call", "mcall") and n.get("callee"):
+                for g in F.find(n["callee"]):
+                    if g is not f and g.j.get("body") and g.j.get("template") != "pattern" and (g.qname.startswith(W + "::") or g.j.get("internal")) \
+                            and not g.qname.endswith("::WriteData") and g not in out:
+                        out.append(g)
+        return out
     for f in F.funcs:
         if f.qname != W + "::WriteData" or f.j["template"] == "pattern":
             continue
-        for t in [n for n in f.walk() if n.get("k") == "try"]:
-            created = [x for x in walk(t["block"]) if x.get("k") == "mcall" and (x.get("callee") or "").endswith(("::createDataSet", "::createGroup"))]
-            if not created:
-                continue
-            kind = "dataset" if created[0]["callee"].endswith("createDataSet") else "group"
-            for h in t["handlers"]:
-                calls = [(x.get("callee") or "").split("::")[-1] for x in walk(h["body"]) if x.get("k") == "mcall"]
+        sites = [(f, s_) for s_ in creation_sites(f)] + [(g, s_) for g in helpers_of(f) for s_ in creation_sites(g)]
+        raw = [x for x in f.walk() if x.get("k") == "mcall" and (x.get("callee") or "").endswith(("::openDataSet", "::createDataSet")) and
+               not any(x["id"] in {y.get("id") for y in walk(t)} for _g, (_k, t, _c, _h) in sites if _g is f)]
+        for g, (kind, t, hcalls, handlers) in sites:
+            for calls, h in zip(hcalls, handlers):
                 n_w += 1
                 key = "overwrite|%s|%s#%d" % (kind_of(f.j["sig"]), kind, n_w)
+                where = "" if g is f else " (in %s)" % g.qname.split("::")[-1]
                 if kind == "dataset":
-                    ok = "unlink" in calls and "createDataSet" in calls and "openDataSet" not in calls
+                    ok = "unlink" in calls and "createDataSet" in calls[calls.index("unlink"):] and "openDataSet" not in calls and not raw
                     rep.check(ok, "R17.5", key, "existing dataset is unlinked and re-created",
-                              "CheckpointWriter::WriteData (%s): when the name exists the handler does %s - the old dataset is reopened and written with the new "
-                              "dataspace, so a value of another shape is not replaced (old extent, partially overwritten data)" % (kind_of(f.j["sig"]), calls), f.loc(h), sample=True)
+                              "CheckpointWriter::WriteData (%s)%s: when the name exists the handler does %s - the old dataset is reopened and written with the new "
+                              "dataspace, so a value of another shape is not replaced (old extent, partially overwritten data)" % (kind_of(f.j["sig"]), where, calls), g.loc(h), sample=True)
                 elif "Vector3d" in kind_of(f.j["sig"]) or "vector<Eigen" in f.j["sig"]:
-                    ok = "unlink" in calls and "createGroup" in calls
+                    ok = "unlink" in calls and "createGroup" in calls[calls.index("unlink"):] and "openGroup" not in calls
                     rep.check(ok, "R17.5", key, "existing list group is unlinked and re-created",
-                              "CheckpointWriter::WriteData (list of 3-vectors): an existing group is reopened (%s); a shorter list keeps stale trailing members" % calls, f.loc(h), sample=True)
+                              "CheckpointWriter::WriteData (list of 3-vectors)%s: an existing group is reopened (%s); a shorter list keeps stale trailing members" % (where, calls), g.loc(h), sample=True)
     rep.floor("R17.5", n_w, 3, "overwrite handlers")
     # scalars are attributes of fixed shape: reopen is fine, but must be written after (re)open
     rep.assumptions.append("scalar attributes have a fixed shape; reopening an existing attribute and writing it replaces the value")
